@@ -68,6 +68,9 @@ def configs():
 
 
 def check(prog, run):
+    run.rule("R-kept", "no algorithm hands out a kept intermediate result (Hankel matrix, spectra) that was computed from data which has been replaced since", 0)
+    from ..effects import memo_rule
+    memo_rule(prog.raw, run, "R-kept", ["pyoma2.algorithms"], "after the algorithm is bound to transformed data (scaled, permuted, another sampling frequency) its result is still that of the old data")
     astq.shortcut_obligations(prog, run, [m_.qual for _, m_ in prog.class_methods("pyoma2.algorithms", "run")])
     run.rule("R-own-option", "every routine reachable from run / mpe hands its options to the helpers that repeat them with the same default (an option left out is the "
              "helper's default whatever the user set)", 20)
